@@ -265,7 +265,8 @@ class RefTokenizer:
             if self._done:
                 return ("eof",)
             st = self.state
-            if st == "data":
+            if st == "data" or st == "ambiguous_ampersand":
+                # (the alphanumerics after an unmatched "&" belong to the following text run)
                 dispatch[st]()
             else:
                 pend = self._pending
